@@ -233,8 +233,79 @@ func (l *lbCtx) lb0(v ssa.Value) int64 {
 		if _, ok := x.X.Type().Underlying().(*types.Basic); ok {
 			return 0
 		}
+	case *ssa.Parameter:
+		// a parameter of an unexported function that is only ever called directly: the least bound
+		// over the arguments of all its call sites
+		fn := x.Parent()
+		if fn == nil || !isRepoFunc(fn) || fn.Parent() != nil || fn.Object() == nil || fn.Object().Exported() || l.busyFn[fn] || l.p.usedAsValue(fn) {
+			return lbUnknown
+		}
+		if fn.Signature.Recv() != nil {
+			return lbUnknown // methods may be reached through interfaces
+		}
+		idx := -1
+		for i, q := range fn.Params {
+			if q == x {
+				idx = i
+			}
+		}
+		sites := l.p.callSitesOf(fn)
+		if idx < 0 || len(sites) == 0 {
+			return lbUnknown
+		}
+		l.busyFn[fn] = true
+		r := int64(math.MaxInt64)
+		for _, s := range sites {
+			if idx >= len(s.Common().Args) {
+				r = lbUnknown
+				break
+			}
+			r = minLb(r, l.lb(s.Common().Args[idx]))
+		}
+		l.busyFn[fn] = false
+		if r == math.MaxInt64 {
+			return lbUnknown
+		}
+		return r
 	}
 	return lbUnknown
+}
+
+// usedAsValue: the function occurs somewhere as a value (stored, passed, bound in a closure) and
+// not only as the callee of direct calls.
+func (p *Prog) usedAsValue(fn *ssa.Function) bool {
+	if p.fnValues == nil {
+		p.fnValues = map[*ssa.Function]bool{}
+		for _, f := range append(append([]*ssa.Function{}, p.Funcs...), p.CanaryFuncs...) {
+			eachInstr(f, func(b *ssa.BasicBlock, ins ssa.Instruction) {
+				var callee ssa.Value
+				if ci, ok := ins.(ssa.CallInstruction); ok && !ci.Common().IsInvoke() {
+					callee = ci.Common().Value
+				}
+				for _, op := range ins.Operands(nil) {
+					if op == nil || *op == nil {
+						continue
+					}
+					if g, ok := (*op).(*ssa.Function); ok {
+						if callee != nil && *op == callee {
+							// the callee position of a direct call - but the same function may also be an argument
+							cnt := 0
+							for _, o2 := range ins.Operands(nil) {
+								if o2 != nil && *o2 == ssa.Value(g) {
+									cnt++
+								}
+							}
+							if cnt == 1 {
+								continue
+							}
+						}
+						p.fnValues[g] = true
+					}
+				}
+			})
+		}
+	}
+	return p.fnValues[fn]
 }
 
 func dependsOn(v ssa.Value, target ssa.Value, depth int) bool {
